@@ -19,7 +19,7 @@ import os
 from . import common
 
 MODULE = "StorageModel.Properties.C17"
-THEOREMS = ["restore_snapshot", "snapshot_id_kept", "restore_fires_listeners", "timeline_once",
+THEOREMS = ["copy_reassembles", "restore_any_reader", "restore_snapshot", "snapshot_id_kept", "restore_fires_listeners", "timeline_once",
             "restore_then_timeline_fresh", "stream_restore_exact", "model_meets_spec", "oracle_accepts_model",
             "no_mixed_view", "every_read_sees_pinned", "swap_excludes_readers", "no_deadlock_flat",
             "restore_under_write_lock", "tx_entry_points_guarded", "code_no_mixed_view",
@@ -31,8 +31,8 @@ TABLE_OBLIGATIONS = ["restore_under_write_lock (Generated/DbLocks.lean, regenera
 
 RULE = ("sequential histories over {Update commit/rollback, Snapshot, View+SnapshotInTx, Update+SnapshotInTx, failing "
         "Snapshot, StreamToWriter, RestoreSnapshot, RestoreFromReader, GetSnapshotId, GetTimelineId x3 modes x idF "
-        "ok/failing, AddRestoreListener, dump} on 6 keys / 4 typed values / 1-3 snapshot slots: 18 fixed histories of "
-        "the property's shape (route x restore call x mode) + seeded random ones (75% forced to contain snapshot ... "
+        "ok/failing, AddRestoreListener, dump} on 6 keys / 6 typed values (two of them 300 KB / 700 KB blobs so that snapshot files straddle the 32 KB and 1 MB copy buffers) / 1-3 snapshot slots: 45 fixed histories of "
+        "the property's shape (route x restore call x mode), every chunk size x EOF style against a small snapshot (and against a > 1 MB one: 4 in quick, all in thorough) + seeded random ones (75% forced to contain snapshot ... "
         "restore; gsid; 2 timeline requests; dump); concurrent populations of View/Update/Batch/StreamToWriter/"
         "GetSnapshotId/GetTimelineId goroutines against RestoreSnapshot goroutines (each transaction must read all "
         "keys equal, twice), with and without concurrent Snapshot, and 3 staged re-entrancy scenarios, all under a "
@@ -93,14 +93,36 @@ def _lines(s):
     return ls
 
 
-def run_three(ctx, lines, timeout=3000):
+def sh_to(cmd, inp, timeout, env=None):
+    """common.sh with the timeout turned into an outcome"""
+    import subprocess
+    try:
+        return common.sh(cmd, inp=inp, timeout=timeout, env=env)
+    except subprocess.TimeoutExpired as e:
+        out = e.stdout.decode("utf-8", "replace") if e.stdout else ""
+        return 124, out + f"\nfatal error: no result within {timeout}s (process killed)"
+
+
+def run_three(ctx, lines, timeout=1500):
     """impl, model, spec outputs for the case lines"""
+    import re
     data = ("\n".join(lines) + "\n").encode()
-    rc, impl = common.sh([common.HARNESS, "c17", "exec"], inp=data, timeout=timeout,
-                         env=dict(os.environ, GOMEMLIMIT="4GiB"))
-    if rc != 0:
-        ctx.log(f"harness exec exited {rc}: {impl[-400:]}")
+    env = dict(os.environ, GOMEMLIMIT="4GiB")
+    rc, impl = sh_to([common.HARNESS, "c17", "exec"], data, timeout, env)
     impl_l = _lines(impl)
+    if rc != 0 or len(impl_l) != len(lines):
+        # the process died (a truncated bolt file is mapped beyond its end -> SIGBUS, not recoverable): run every
+        # case in its own process so that the crashing input is identified
+        ctx.log(f"harness exec exited {rc}; re-running the {len(lines)} cases one process each")
+        impl_l = []
+        for l in lines:
+            rc1, out1 = sh_to([common.HARNESS, "c17", "exec"], (l + "\n").encode(), 60, env)
+            o = _lines(out1)
+            if rc1 == 0 and len(o) == 1:
+                impl_l.append(o[0])
+            else:
+                m = re.search(r"(fatal error: [^\n]*|unexpected fault address[^\n]*|panic: [^\n]*|signal SIG[A-Z]+[^\n]*)", out1)
+                impl_l.append("crash:" + (m.group(1) if m else f"exit {rc1}").replace(" ", "_").replace("\t", "_"))
     rc, model = common.sh([common.DRIVER], inp=data, timeout=timeout)
     if rc != 0:
         ctx.log(f"driver exited {rc}: {model[-400:]}")
